@@ -1,8 +1,109 @@
 //! Verification hook (compiled only with `--cfg quinn_rs_quinn_verif`).
+//!
+//! Component `sent_packets`: the `SentPackets` ring-buffer map (connection/sent_packets.rs),
+//! driven as its unit tests drive it.
+//!
+//! Ops:
+//!   [0, pn, size, ack_eliciting]   insert          -> [0, has_in_flight]
+//!                                   (a gap of more than 4096 packet numbers is not executed: [-3])
+//!   [1, pn]                        remove          -> [1, size, ack_eliciting, has_in_flight] | [0, has_in_flight]
+//!   [2, pn]                        get             -> [1, size, ack_eliciting] | [0]
+//!   [3, lk, lo, hk, hi]            range; bound kind 0 = Included, 1 = Excluded, 2 = Unbounded
+//!                                                  -> [n, pn1, size1, ..., pnn, sizen]
+//!   [4]                            mem::take + into_values -> [n, size1, ..., sizen]
+//!   [5, d]                         values_mut: size += d on every entry (caller keeps sizes nonzero
+//!                                   and below 2^16)  -> [n]
+//! A panic (debug assertion on a non-increasing insert) is reported by the harness as PANIC.
 #![allow(missing_docs, dead_code, unused_imports, unreachable_pub, clippy::all)]
 use super::{Ops, Outs};
+use crate::Instant;
+use crate::connection::sent_packets::SentPackets;
+use crate::connection::spaces::SentPacket;
+use std::ops::Bound;
 
-/// Interpret `ops` for component `comp`; `None` if `comp` is not served by this module.
-pub(crate) fn run(_comp: &str, _ops: &Ops) -> Option<Outs> {
-    None
+pub(super) fn packet(now: Instant, generation: u64, size: u16, ack_eliciting: bool) -> SentPacket {
+    SentPacket {
+        path_generation: generation,
+        time_sent: now,
+        size,
+        ack_eliciting,
+        largest_acked: None,
+        retransmits: Default::default(),
+        stream_frames: Default::default(),
+    }
+}
+
+fn bound(kind: i128, v: i128) -> Bound<u64> {
+    match kind {
+        0 => Bound::Included(v as u64),
+        1 => Bound::Excluded(v as u64),
+        _ => Bound::Unbounded,
+    }
+}
+
+fn sent_packets(ops: &Ops) -> Outs {
+    let now = Instant::now();
+    let mut m = SentPackets::default();
+    let mut last: Option<u64> = None;
+    let mut outs = Vec::new();
+    for op in ops {
+        let o = match op[0] {
+            0 => {
+                let pn = op[1] as u64;
+                if last.is_some_and(|l| pn > l && pn - l > 4096) {
+                    vec![-3]
+                } else {
+                    m.insert(pn, packet(now, 0, op[2] as u16, op[3] != 0));
+                    last = Some(pn);
+                    vec![0, m.has_in_flight() as i128]
+                }
+            }
+            1 => match m.remove(op[1] as u64) {
+                Some(p) => vec![1, p.size as i128, p.ack_eliciting as i128, m.has_in_flight() as i128],
+                None => vec![0, m.has_in_flight() as i128],
+            },
+            2 => match m.get(op[1] as u64) {
+                Some(p) => vec![1, p.size as i128, p.ack_eliciting as i128],
+                None => vec![0],
+            },
+            3 => {
+                let items: Vec<(u64, u16)> = m
+                    .range((bound(op[1], op[2]), bound(op[3], op[4])))
+                    .map(|(pn, p)| (pn, p.size))
+                    .collect();
+                let mut o = vec![items.len() as i128];
+                for (pn, s) in items {
+                    o.push(pn as i128);
+                    o.push(s as i128);
+                }
+                o
+            }
+            4 => {
+                let taken = std::mem::take(&mut m);
+                last = None;
+                let sizes: Vec<i128> = taken.into_values().map(|p| p.size as i128).collect();
+                let mut o = vec![sizes.len() as i128];
+                o.extend(sizes);
+                o
+            }
+            5 => {
+                let mut n = 0;
+                for v in m.values_mut() {
+                    v.size += op[1] as u16;
+                    n += 1;
+                }
+                vec![n]
+            }
+            _ => vec![-1],
+        };
+        outs.push(o);
+    }
+    outs
+}
+
+pub(crate) fn run(comp: &str, ops: &Ops) -> Option<Outs> {
+    match comp {
+        "sent_packets" => Some(sent_packets(ops)),
+        _ => None,
+    }
 }
